@@ -89,7 +89,55 @@ def plan(tier, seed):
                     jobs.append({"reported": reported, "id": f"{r['codemod']}|{draw}|{S}|{vname}", "cid": r["codemod"], "S": S, "k": k, "ranges": ranges, "variant": vname, "tool": r["tool"], "src": src, "files": {"code.py": b64(src), "other.py": b64("x = 1\n")},
                                  "result_files": {"r.json": doc(r["tool"], "code.py", fs, decoys)}, "argv": ["{proj}", "--output", "{out}", FLAG[r["tool"]], "{res}/r.json", "--codemod-include", r["codemod"]],
                                  "monitors": {"snap": False}, "n_site_findings": {i: len(sites[i]) for i in range(k)}})
+    jobs += same_line_jobs(tier, rnd, recs)
     return jobs
+
+def same_line_jobs(tier, rnd, recs):
+    """two equally vulnerable sites on ONE physical line (`site; site`, the first at column 0): report the first, the second, both, none.
+    The line of the seed's first single-line finding is doubled; the other body lines stay (their findings are not reported)."""
+    jobs = []; seen = collections.Counter()
+    for r in recs:
+        if r["tool"] == "defectdojo" or seen[r["codemod"]] >= (1 if tier == "quick" else 3): continue
+        if r["tool"] == "sonar" and "components" in r["results"]: continue
+        head, body = gen.split_head(r["input"]); nhead = head.count("\n")
+        blines = body.splitlines()
+        fs_all = [f for f in findings_of(r) if f["sl"] > nhead and f["sl"] == f["el"] and f["sc"] is not None]
+        if not fs_all: continue
+        l0 = fs_all[0]["sl"]; idx = l0 - nhead - 1
+        if not (0 <= idx < len(blines)): continue
+        stmt = blines[idx].rstrip()
+        if not stmt or stmt != stmt.lstrip() or stmt.endswith((":", "\\", ",", "(")) or "#" in stmt: continue
+        fs = [f for f in fs_all if f["sl"] == l0]
+        new_body = blines[:idx] + [stmt + "; " + stmt] + blines[idx + 1:]
+        line_no = nhead + 2 + idx + 1   # head, VF_PRELUDE, BEGIN sentinel, body lines
+        src = head + "VF_PRELUDE = 0\n" + ST.BEGIN(0) + "\n".join(new_body) + "\n" + ST.END(0)
+        try: ast.parse(src)
+        except SyntaxError: continue
+        if src.splitlines()[line_no - 1] != stmt + "; " + stmt: continue
+        seen[r["codemod"]] += 1
+        shift = len(stmt) + 2
+        halves = {0: [dict(f, sl=line_no, el=line_no, site=0) for f in fs], 1: [dict(f, sl=line_no, el=line_no, sc=f["sc"] + shift, ec=f["ec"] + shift, site=1) for f in fs]}
+        for S in ((), (0,), (1,), (0, 1)):
+            ff = [f for h in S for f in halves[h]]
+            jobs.append({"id": f"{r['codemod']}|same-line|{S}", "cid": r["codemod"], "S": S, "k": 1, "variant": "same-line-double", "stmt": stmt, "double_index": idx, "n_body": len(new_body), "tool": r["tool"], "src": src,
+                         "files": {"code.py": b64(src), "other.py": b64("x = 1\n")}, "result_files": {"r.json": doc(r["tool"], "code.py", ff, [])},
+                         "argv": ["{proj}", "--output", "{out}", FLAG[r["tool"]], "{res}/r.json", "--codemod-include", r["codemod"]], "monitors": {"snap": False}})
+    return jobs
+
+def judge_same_line(job, run):
+    v = []; st = collections.Counter(); nt = []; cm = job["cid"]
+    after = unb(run["tree"]["code.py"][2:]).decode("utf-8", "replace")
+    region = ST.site_text(after, 0)
+    if region is None: return v, st, nt
+    lines = region.splitlines()
+    if len(lines) != job["n_body"] or lines[job["double_index"]].count("; ") != 1: st["same_line_unjudged_multiline_rewrite"] += 1; return v, st, nt
+    parts = lines[job["double_index"]].split("; ")
+    hit = {i for i in (0, 1) if parts[i] != job["stmt"]}; S = set(job["S"])
+    nt.append(job["id"]); st["same_line_cases"] += 1; st["fired:" + cm] += 1
+    w = {"codemod": cm, "reported_halves": sorted(S), "rewritten_halves": sorted(hit), "src": job["src"], "after": after, "result_file": job["result_files"]["r.json"]}
+    if hit - S: v.append(Violation("C06", f"same-line/unreported-site-rewritten/{cm}", f"two sites on one line, reported {sorted(S)}: site(s) {sorted(hit - S)} rewritten without a finding", w))
+    if S - hit: v.append(Violation("C06", f"same-line/reported-site-not-rewritten/{cm}", f"two sites on one line, reported {sorted(S)}: site(s) {sorted(S - hit)} not rewritten", w))
+    return v, st, nt
 
 def site_text(text, i):
     a = text.find(ST.BEGIN(i)); b = text.find(ST.END(i))
@@ -100,6 +148,7 @@ def judge(job, res):
     run = res["runs"][0]; cm = job["cid"]
     if run["rc"] != 0 or run["exc"]:
         v.append(Violation("C06", f"run-failed/{cm}", f"rc={run['rc']} exc={run['exc']}", {"argv": job["argv"], "log": run["log"][-600:]})); return v, st, nt
+    if job["variant"] == "same-line-double": return judge_same_line(job, run)
     after = unb(run["tree"]["code.py"][2:]).decode("utf-8", "replace")
     hit = ST.sites_changed(job["src"], after, job["k"])
     S = set(job["S"])
